@@ -6,6 +6,7 @@ import (
 	"go/types"
 	"os"
 	"regexp/syntax"
+	"slices"
 	"sort"
 	"strings"
 
@@ -31,6 +32,8 @@ func runC18(p *core.Prog, r *core.Report) {
 	c18R2(p, r)
 	c18R3(p, r)
 	c18R4(p, r)
+	c18R5(p, r)
+	c18R6(p, r)
 }
 
 func c18R1(p *core.Prog, r *core.Report) {
@@ -631,5 +634,214 @@ func c18R4(p *core.Prog, r *core.Report) {
 	if n == 0 {
 		r.Note("%s: cmd/regsync keeps no package-level map cache", rule)
 		r.Held(rule, "cmd/regsync", "no process-wide cache", "", "nothing to key")
+	}
+}
+
+// c18R5: ownership of the listing that is filtered. The filter may blank rejected elements of the
+// slice it was given; that is harmless only while the caller is the sole holder of that slice.
+func c18R5(p *core.Prog, r *core.Report) {
+	const rule = "C18.R5"
+	r.Rule(rule, "a listing is filtered once: when the allow/deny filter writes into the []string it is given, every call site hands it a listing that nobody else holds (the result of a call outside the package, not a field, map element or package variable, looked at through the package's own helpers)", 1)
+	unit := map[*ssa.Function]bool{}
+	for _, f := range pkgFuncs(p, "cmd/regsync") {
+		unit[f] = true
+	}
+	for _, f := range sortedFuncs(unit) {
+		if f.Parent() != nil {
+			continue
+		}
+		var ad bool
+		var in []*ssa.Parameter
+		for _, pr := range f.Params {
+			if core.IsModNamed(pr.Type(), "cmd/regsync", "AllowDeny") {
+				ad = true
+			}
+			if isStringSlice(pr.Type()) {
+				in = append(in, pr)
+			}
+		}
+		if !ad || len(in) == 0 {
+			continue
+		}
+		fname := p.FuncName(f)
+		// does it store into an element of a slice that may be the parameter?
+		var writes ssa.Instruction
+		for g := range core.Helpers(f, 2) {
+			for _, b := range g.Blocks {
+				for _, ins := range b.Instrs {
+					st, ok := ins.(*ssa.Store)
+					if !ok {
+						continue
+					}
+					ia, ok := st.Addr.(*ssa.IndexAddr)
+					if !ok || !isStringSlice(ia.X.Type()) {
+						continue
+					}
+					for _, o := range core.Origins(ia.X, core.SliceOpts{Helpers: core.Helpers(f, 2)}) {
+						if o.Kind == core.OParam && o.Param.Parent() == f {
+							writes = st
+						}
+					}
+				}
+			}
+		}
+		if writes == nil {
+			r.Held(rule, fname, "filter leaves its input alone", p.Pos(f.Pos()), "no store into an element of the slice parameter: sharing a listing between calls is harmless")
+			continue
+		}
+		r.Held(rule, fname, "filter writes into its input", p.Pos(writes.Pos()), "an element of the slice that may be the parameter is overwritten: each call site is checked for sole ownership of the listing")
+		idx := -1
+		for i, q := range f.Params {
+			if q == in[0] {
+				idx = i
+			}
+		}
+		lab := map[*ssa.Function]labeler{}
+		for _, caller := range sortedFuncs(unit) {
+			for _, c := range core.CallsTo(caller, func(cal *types.Func) bool { return cal == f.Object() }) {
+				call, ok := c.(*ssa.Call)
+				if !ok || idx >= len(call.Call.Args) {
+					continue
+				}
+				if lab[caller] == nil {
+					lab[caller] = labeler{}
+				}
+				label := lab[caller].next("listing passed to " + f.Name())
+				var shared []string
+				for _, o := range core.Origins(call.Call.Args[idx], core.SliceOpts{Helpers: unit, Callers: unit}) {
+					switch o.Kind {
+					case core.OCall:
+						if g := core.CalleeFn(o.Call); g != nil && unit[g] {
+							shared = append(shared, "result of "+g.Name()+" (not looked through)")
+						}
+					case core.OConst, core.OAlloc:
+					case core.OField:
+						shared = append(shared, "field "+o.Field)
+					case core.OGlobal:
+						shared = append(shared, "package variable "+o.Val.Name())
+					default:
+						shared = append(shared, o.Kind+" "+o.Val.Name())
+					}
+				}
+				sort.Strings(shared)
+				if len(shared) == 0 {
+					r.Held(rule, p.FuncName(caller), label, p.Pos(call.Pos()), "the listing is the result of a call outside the package, made for this use")
+				} else {
+					r.Violated(rule, p.FuncName(caller), label, p.Pos(call.Pos()), "the filter blanks rejected elements of the slice it is given, and this listing is also held elsewhere ("+strings.Join(shared, "; ")+"): what one configuration entry rejects disappears for the next one")
+				}
+			}
+		}
+	}
+}
+
+// c18R6: the loop that pages through the source catalog decides "no more pages" and the next marker
+// from the page the registry sent, not from what is left of it after the allow/deny filter: a page
+// whose repositories are all filtered out is not the end of the catalog.
+func c18R6(p *core.Prog, r *core.Report) {
+	const rule = "C18.R6"
+	r.Rule(rule, "paging looks at the raw page: in every marker-paged listing loop of cmd/regsync the exits that test the page length and the marker carried to the next request are computed from the listing the registry returned, not from the result of the allow/deny filter", 1)
+	isListing := func(f *types.Func) bool {
+		return core.IsModMethod(f, ".", "RegClient", "RepoList") || core.IsModMethod(f, ".", "RegClient", "TagList")
+	}
+	isFilter := func(g *ssa.Function) bool {
+		if g == nil {
+			return false
+		}
+		for _, pr := range g.Params {
+			if core.IsModNamed(pr.Type(), "cmd/regsync", "AllowDeny") {
+				return true
+			}
+		}
+		return false
+	}
+	unit := map[*ssa.Function]bool{}
+	for _, f := range pkgFuncs(p, "cmd/regsync") {
+		if !isFilter(f) {
+			unit[f] = true
+		}
+	}
+	filtered := func(v ssa.Value) string {
+		for _, o := range core.Origins(v, core.SliceOpts{Helpers: unit, Callers: unit}) {
+			if o.Kind == core.OCall && isFilter(core.CalleeFn(o.Call)) {
+				return core.CalleeFn(o.Call).Name()
+			}
+		}
+		return ""
+	}
+	n := 0
+	for _, fn := range sortedFuncs(unit) {
+		lab := labeler{}
+		for _, l := range core.Loops(fn) {
+			if strings.HasPrefix(l.Header.Comment, "range") {
+				continue
+			}
+			listing := pagerListing(l, isListing)
+			if listing == nil {
+				continue
+			}
+			n++
+			fname := p.FuncName(fn)
+			label := lab.next("marker pager")
+			var bad []string
+			for _, e := range l.Exits() {
+				ifi, ok := core.LastInstr(e[0]).(*ssa.If)
+				if !ok {
+					continue
+				}
+				// every operand of the (possibly compound) exit condition
+				var leaves []ssa.Value
+				var split func(v ssa.Value, d int)
+				split = func(v ssa.Value, d int) {
+					switch x := v.(type) {
+					case *ssa.BinOp:
+						leaves = append(leaves, x.X, x.Y)
+					case *ssa.UnOp:
+						if d < 4 {
+							split(x.X, d+1)
+						}
+					case *ssa.Phi:
+						for _, ed := range x.Edges {
+							if d < 4 {
+								split(ed, d+1)
+							}
+						}
+					}
+				}
+				split(ifi.Cond, 0)
+				for _, side := range leaves {
+					if c, ok := side.(*ssa.Call); ok {
+						if b, ok := c.Call.Value.(*ssa.Builtin); ok && b.Name() == "len" && len(c.Call.Args) == 1 {
+							if f := filtered(c.Call.Args[0]); f != "" {
+								bad = append(bad, "an exit tests the length of the result of "+f)
+							}
+						}
+					}
+				}
+			}
+			// the marker: string phis of the header fed from inside the loop
+			for _, in := range l.Header.Instrs {
+				phi, ok := in.(*ssa.Phi)
+				if !ok || !isStringType(phi.Type()) {
+					continue
+				}
+				for i, ed := range phi.Edges {
+					if l.Blocks[l.Header.Preds[i]] {
+						if f := filtered(ed); f != "" {
+							bad = append(bad, "the marker "+phi.Comment+" for the next request is taken from the result of "+f)
+						}
+					}
+				}
+			}
+			sort.Strings(bad)
+			bad = slices.Compact(bad)
+			if len(bad) == 0 {
+				r.Held(rule, fname, label, p.Pos(listing.Pos()), "page-length exits and the carried marker come from the listing call")
+			} else {
+				r.Violated(rule, fname, label, p.Pos(listing.Pos()), strings.Join(bad, "; ")+": a page whose entries are all rejected by the filter ends the walk although the catalog continues")
+			}
+		}
+	}
+	if n == 0 {
+		r.Held(rule, "cmd/regsync", "no marker pager", "", "cmd/regsync pages through no listing itself")
 	}
 }
